@@ -533,7 +533,19 @@ impl World {
         let outcome: Result<bool, Trap> = match endpoint {
             0 => canister::get_utxos_update(&a, net, if arg % 4 == 1 { Some(UtxosFilterInRequest::MinConfirmations(arg % (best_len + 3))) } else { None }).map(|r| r.is_ok()),
             1 => canister::get_balance_update(&a, net, if arg % 4 == 1 { Some(arg % (best_len + 3)) } else { None }).map(|r| r.is_ok()),
-            2 => canister::get_block_headers(arg % (tip + 1), None, net).map(|r| r.is_ok()),
+            2 => {
+                let start = arg % (tip + 1);
+                let end = match arg % 3 {
+                    0 => None,
+                    1 => Some((start + arg % 5).min(tip)),
+                    // entirely below the stable height when possible
+                    _ => Some((start + arg % 3).min(self.anchor_height().saturating_sub(1)).max(start).min(tip)),
+                };
+                if end.map(|e| e < self.anchor_height()).unwrap_or(false) {
+                    self.stats.probe("paid_headers_range_entirely_stable");
+                }
+                canister::get_block_headers(start, end, net).map(|r| r.is_ok())
+            }
             3 => canister::get_fee_percentiles(net).map(|_| true),
             4 => canister::send_transaction(tx_payload.clone(), net).map(|r| r.is_ok()),
             5 => canister::get_utxos_query(&a, net, None).map(|r| r.is_ok()),
@@ -786,6 +798,11 @@ impl World {
             }
             self.stats.probe("send_tx_forwarded");
         } else {
+            // the internal call was rejected (the call traps by design); what was forwarded was
+            // nevertheless a counted request
+            if count_after != count_before + 1 {
+                return Err(violation("C19", "forwarded-but-not-counted", format!("{desc}: payload forwarded (the block source rejected it), counter moved by {}", count_after - count_before)));
+            }
             self.stats.probe("send_tx_internal_reject");
         }
         Ok(true)
